@@ -6,7 +6,7 @@ func init() {
 		Explain: "Decides a structural sufficient condition for injectivity of the hash input plus field coverage, for all pairs of values at once: " +
 			"(H1) every field of Trip/TripID/StopTimeUpdate/StopTimeEvent (for vehicles: Vehicle/VehicleID/Position and the trip) reaches an encoder call, and the excluded fields (Trip.Vehicle, IsEntityInMessage) are never read by the hasher; " +
 			"(H2) the encoder matches the field's type (string -> length-prefixed string, *T -> presence-prefixed encoder, time -> Unix seconds so zone presentation is ignored, slice -> length then every element by a range loop, pointer-to-struct -> presence flag then fields); " +
-			"(H3) the primitives are self-delimiting (length before bytes, presence flag on every path, value only on the non-nil edge); " +
+			"(H2) also: what is handed to an encoder is computed for the element at hand -- a variable that can keep its value from a previous trip around a loop is not accepted as a source; (H3) the primitives are self-delimiting (length before bytes, presence flag on every path, value only on the non-nil edge); " +
 			"(H4) flush discipline (direct hash writes only in flush/string, flush between buffered length and direct write, final flush); (G15) every value reaching binary.Write has a fixed size; determinism via no map range / clock in the hasher. " +
 			"Not decided: encoding/binary and the hash function themselves.",
 		Assumptions: []string{"hash.Hash implementations consume Write calls as a byte stream"},
